@@ -15,7 +15,7 @@ func init() {
 		Level:     "other",
 		Technique: "static analysis: exhaustive three-valued decision tables of the predicate combinators (abstract evaluation of the AST), switch/constant coverage, struct-field coverage of Clone",
 		Explanation: "Delete predicates are compiled into a tree of comparison, AND and OR nodes that is evaluated incrementally over {needMore, true, false}. Decided: " +
-			"(1) combinator tables (exhaustive): predicateNodeAnd.Update and predicateNodeOr.Update, evaluated abstractly on all 9 operand pairs (and with a valid cache), never return a definite answer that differs from Kleene conjunction/disjunction of their operands, return the boolean value whenever both operands are definite, and return the cached response when the cache is valid; " +
+			"(1) combinator tables (exhaustive): predicateNodeAnd.Update and predicateNodeOr.Update, evaluated abstractly on all 9 operand pairs (and with a valid cache), never return a definite answer that differs from Kleene conjunction/disjunction of their operands, return the boolean value whenever both operands are definite, return true whenever the Kleene value is true (a true disjunct wins over an undecidable one; needMore may only stand in for false), and return the cached response when the cache is valid; " +
 			"(2) operator coverage: predicateEval has a case for every datatypes.Node_Comparison constant, and each case returns an expression (no silent fall-through to the final `return false`), regex cases use the compiled regex and the others the right literal; buildPredicateNode enforces 'regex set iff regex comparison' and handles both logical operators and rejects others; " +
 			"(3) Clone coverage: Clone of predicateNodeAnd/Or/Comparison, predicateCache, predicateState and predicateMatcher copies every field of its struct; " +
 			"(4) predicateNodeComparison.Update answers needMore exactly while an operand value is missing and stores its definite answer.",
@@ -90,7 +90,11 @@ func runC16(p *core.Prog, r *core.Report, tier string) {
 			} else {
 				k := kleene(c.op, l, rr)
 				definite := l != "nm" && rr != "nm"
-				okRow = res.Value == k || (res.Value == "nm" && !definite)
+				// "need more" at the end of the key is read as "no match" (there is no
+				// negation node), so an early needMore may stand in for a Kleene `false`
+				// but never for a Kleene `true`: a disjunct that is already true must
+				// win even when the other operand can never be decided (seed C16c).
+				okRow = res.Value == k || (res.Value == "nm" && !definite && k != "t")
 			}
 			if res.Panicked || !okRow {
 				bad++
